@@ -102,6 +102,20 @@ data member of `XalanDecimalFormatSymbols` (the key of the ICU decimal-format ca
 key; the collator cache is searched by the locale name, the only input of `createCollator`. -/
 theorem cache_keys_complete : cacheKeySites.all (fun x => x.2) = true := by decide +kernel
 
+/-- **scratch_qname_history_free.** With the `else m_namespace.clear()` of proposed/C06-scratch-qname.diff the result of
+resolving a prefixed name on the execution context's scratch QName does not depend on what the previous lookup left in
+it — for all previous contents, all resolver answers, all local parts. -/
+theorem scratch_qname_history_free (p1 p2 : ScratchQName) (lookup : Option (List Nat)) (lp : List Nat) :
+    resolvePrefixed true p1 lookup lp = resolvePrefixed true p2 lookup lp := by
+  cases lookup <;> rfl
+
+/-- **scratch_qname_stale_counterexample.** Without it (the tree as found) an undeclared prefix resolves to the namespace
+of the previous lookup instead of being reported, while on a fresh instance it is reported: history dependence.
+Replayed on the real library by corpus case `qname-lookups` (`transformsrc qn_ea_decl d1 ; transformsrc qn_ea_undecl d1`). -/
+theorem scratch_qname_stale_counterexample :
+    resolvePrefixed false ⟨[7], [1]⟩ none [2] = .ok ⟨[7], [2]⟩ ∧
+    resolvePrefixed false ⟨[], []⟩ none [2] = .prefixNotDeclared := by decide
+
 /-- **scope_guard_restores.** Semantics of a C++ block holding `CollectionClearGuard`s, with exceptions
 (`XalanModel/C06/Scope.lean`): if every mutation of member `m` lies inside a scope that guards `m`, then after the
 code ran — to completion or to an exception at *any* point — `m` is empty again. -/
